@@ -261,3 +261,16 @@ PROPS["C19"] = {
     "thorough": {"configs": GEOM_ROWS, "cases": 300000, "floor_evaluations": 3000000},
     "regress": ["slot_limit_after_shrink", "limits"],
 }
+
+PROPS["C06"] = {
+    "title": "Every block comes from and returns to the user's allocator exactly once",
+    "src": "c06.cpp",
+    "level": "exploration",
+    "technique": "model-based histories on instrumented allocators (one ledger per document: live-block map, foreign/double release detection, always-moving realloc under ASan), inspector invariants for slot reuse and string reference counts, allocation hook asserting free-list emptiness at every pool request, and a peak-memory bound for the deserializers on inputs with huge declared lengths",
+    "rule": "case = (2/3) a C04 history on 2-3 documents owning distinct ledgers (so that swap / move / assign / copy-construct must carry the allocator), or (1/3) a JSON or MessagePack input (valid, mutated, truncated, headers announcing up to 2^32-1 bytes or elements, strings up to 70000 bytes) deserialized through a counting reader on a ledger; non-trivial = a history in which a string whose text is still used elsewhere loses a user, or a document is moved/swapped/assigned between different ledgers, or an input whose declared length exceeds its actual length; distinct = hash of the history / input",
+    "level_text": "Exploration: every release/resize must target a block live in the same ledger; zero live blocks after clear() and after destruction for every document including moved-from, swapped, copy-constructed and assigned ones; no allocator call during reads; at every pool request the free list is empty and the previous pool is full; string nodes have references == users, no unused node and no duplicate content after every operation; deserialization peak <= 3*sizeofString(maxLength) + 2 pools + 1 KiB + 64 bytes per consumed byte.",
+    "level_note": "The memory bound is vacuous with 4-byte string lengths (one maximum-size string is 4 GiB) and is skipped there. Pool requests are only watched for operations addressed through variants/proxies (not the JsonDocument-level calls).",
+    "quick": {"configs": ["default", "g1_16_4_1", "g1_4_1_1", "g2_2_1_4"], "cases": 40000, "floor_evaluations": 120000, "floor_nontrivial": 20000,
+              "require_labels": ["shared-string-user-removed", "document-moved-between-ledgers", "pool-requests-watched", "declared-length-exceeds-input"]},
+    "thorough": {"configs": ["default", "g1_16_4_1", "g1_4_1_1", "g2_2_1_4", "g2_128_4_2"], "cases": 2000000, "floor_evaluations": 5000000},
+}
